@@ -124,6 +124,10 @@ class World:
             key = (dp.host, dp.port, dp.direction)
             T = int(self.net.clock())
             r = self.ref.setdefault(key, {'k': 0, 't_last': None})
+            if r.get('unmonitored'):
+                # the address was dialled from outside the manager's own retry loop ('redial'): its back-off is no longer
+                # compared with the reference (the invariants still are)
+                r = dict(r, k=0, t_last=None)
             if (dp.host, dp.port) in self.self_addrs:
                 self.bad.append(('self-address-dialled-again', "address %s:%s, found to be the node itself, is dialled again" % key[:2]))
             if r['k'] > GIVEUP:
@@ -153,6 +157,8 @@ class World:
                     # the node has given the attempt up already: it ended without a greeting
                     r['k'] += 1
         self.node.lp.start_outgoing_connection = dial
+        self._orig_dial = orig
+        self.redials = 0
 
     # ---- helpers
     def sync_conns(self):
@@ -187,6 +193,12 @@ class World:
             for a in ANNOUNCE:
                 ev.append(('peers', i, a))
             ev += [('close', i), ('garbage', i), ('oserror', i)]
+        if self.redials == 0:
+            # a duplicate OUTGOING key: somebody other than the manager's retry loop (an operator, a script) dials an address
+            # whose connection is still open (LocalPeer.start_outgoing_connection is the public way in)
+            for i, c in enumerate(self.conns):
+                if c['open'] and c['kind'] == 'out':
+                    ev.append(('redial', i))
         return ev
 
     def apply(self, ev):
@@ -209,6 +221,25 @@ class World:
             r.net, r.node, r.msg_id, r.sock, r.node_sock = self.net, node, 0, s, s.peer
             self.conns.append({'kind': 'in', 'key': (ev[1], ev[2], 'INCOMING'), 'sock': s.peer, 'remote': r, 'open': True,
                                'established': True})
+        elif kind == 'redial':
+            from skepticoin.networking.remote_peer import DisconnectedRemotePeer
+            c = self.conns[ev[1]]
+            key = c['key']
+            self.redials += 1
+            cp = node.nm.connected_peers.get(key)
+            dp = DisconnectedRemotePeer(key[0], key[1], key[2], cp.last_connection_attempt if cp is not None else None,
+                                        cp.ban_score if cp is not None else 0)
+            self.ref.setdefault(key, {'k': 0, 't_last': None})['unmonitored'] = True
+            n0 = len(self.net.dialling)
+            try:
+                self._orig_dial(dp)
+            except Exception as e:
+                self.bad.append(('exception-escaped', "after %s: dialling an address whose connection is still open raises %r" % (ev, e)))
+            if len(self.net.dialling) > n0:
+                self.conns.append({'kind': 'out', 'key': key, 'sock': self.net.dialling[-1], 'remote': None, 'open': True,
+                                   'established': False})
+            if c['sock'].closed or c['sock'] not in node.lp.selector.get_map():
+                c['open'] = None if c['open'] is None else False       # dropped as the duplicate: not an attempt that failed
         else:
             c = self.conns[ev[1]]
             if kind == 'establish':
@@ -313,10 +344,10 @@ class World:
                             p.waiting_for_peers, rel(p.last_get_peers_sent_at)) for k, p in nm.connected_peers.items()))
         dis = tuple(sorted((k, p.ban_score, rel(p.last_connection_attempt)) for k, p in nm.disconnected_peers.items()))
         dl = tuple(sorted(c['key'] for c in self.conns if c['open'] and not c['established']))
-        ref = tuple(sorted((k, r['k'], rel(r['t_last']), r.get('greeted', False)) for k, r in self.ref.items()))
+        ref = tuple(sorted((k, r['k'], rel(r['t_last']), r.get('greeted', False), r.get('unmonitored', False)) for k, r in self.ref.items()))
         fl = self.file_list()
         return (con, dis, tuple(sorted(nm.my_addresses)), dl, ref, tuple(fl) if isinstance(fl, list) else fl,
-                T % 60 == 0)
+                T % 60 == 0, self.redials)
 
 
 def execute(book, trace):
